@@ -44,6 +44,13 @@ type Global struct {
 	constGlobals map[*ssa.Global]*ssa.Const
 	nonNilGlobals map[*ssa.Global]bool
 	rtTypes  []types.Type
+	cbMemo   map[string][]*ssa.Function
+	anyBoxed []types.Type
+	flowInto map[*types.Package]map[*types.Named]bool
+	reachMemo map[*types.Package]map[*types.Named]bool
+	traceSub string
+	traceOut []string
+	ifaceGlobals map[*ssa.Global]types.Type // init-only interface globals with a known dynamic type (io.Discard, ...)
 }
 
 type writeKey struct {
@@ -150,6 +157,7 @@ func loadProgram(repo string, patterns []string) (*Global, error) {
 func (g *Global) findConstGlobals() {
 	g.constGlobals = map[*ssa.Global]*ssa.Const{}
 	g.nonNilGlobals = map[*ssa.Global]bool{}
+	g.ifaceGlobals = map[*ssa.Global]types.Type{}
 	bad := map[*ssa.Global]bool{}
 	for fn := range g.allFns {
 		if fn.Pkg == nil {
@@ -162,6 +170,8 @@ func (g *Global) findConstGlobals() {
 					if gl, ok := st.Addr.(*ssa.Global); ok {
 						if c, isC := st.Val.(*ssa.Const); isC && isInit && g.constGlobals[gl] == nil && !g.nonNilGlobals[gl] {
 							g.constGlobals[gl] = c
+						} else if mi, isMI := st.Val.(*ssa.MakeInterface); isMI && isInit && g.ifaceGlobals[gl] == nil && g.constGlobals[gl] == nil && !g.nonNilGlobals[gl] {
+							g.ifaceGlobals[gl] = mi.X.Type()
 						} else if call, isCall := st.Val.(*ssa.Call); isCall && isInit && g.constGlobals[gl] == nil && !g.nonNilGlobals[gl] &&
 							call.Common().StaticCallee() != nil && (call.Common().StaticCallee().String() == "errors.New" || call.Common().StaticCallee().String() == "fmt.Errorf") {
 							g.nonNilGlobals[gl] = true
@@ -192,6 +202,7 @@ func (g *Global) findConstGlobals() {
 	for gl := range bad {
 		delete(g.constGlobals, gl)
 		delete(g.nonNilGlobals, gl)
+		delete(g.ifaceGlobals, gl)
 	}
 }
 
@@ -362,6 +373,9 @@ func (g *Global) parseSpecFile(path string) error {
 				return err
 			}
 			cur = strings.TrimSpace(strings.TrimPrefix(t, "//@ package "))
+			if cur == "builtin" {
+				cur = "" // universe types (error)
+			}
 			// keep line count
 			for i := range chunk {
 				chunk[i] = ""
@@ -873,6 +887,27 @@ func (g *Global) fnWrites(fn *ssa.Function, root *types.Package) (map[string]boo
 	// reachability from fn
 	seen := map[*ssa.Function]bool{}
 	stack := []*ssa.Function{fn}
+	parent := map[*ssa.Function]*ssa.Function{}
+	push := func(from *ssa.Function, ts []*ssa.Function) {
+		for _, t := range ts {
+			if _, ok := parent[t]; !ok && t != fn {
+				parent[t] = from
+			}
+			stack = append(stack, t)
+		}
+	}
+	traceKey := func(f *ssa.Function, k string) {
+		if g.traceSub != "" && strings.Contains(k, g.traceSub) && g.traceOut == nil {
+			var chain []string
+			for x := f; x != nil; x = parent[x] {
+				chain = append(chain, x.String())
+				if x == fn {
+					break
+				}
+			}
+			g.traceOut = append([]string{"key " + k + " reached via:"}, chain...)
+		}
+	}
 	res := &writeSet{keys: map[string]bool{}}
 	for len(stack) > 0 {
 		f := stack[len(stack)-1]
@@ -893,12 +928,24 @@ func (g *Global) fnWrites(fn *ssa.Function, root *types.Package) (map[string]boo
 		}
 		// contract with explicit modifies: trust it instead of descending
 		if u := g.unitForLocked(f); u != nil && f != fn && (u.HasMod || u.Trusted || u.Pure) {
-			g.unitModKeys(u, f, res)
+			sub := &writeSet{keys: map[string]bool{}}
+			g.unitModKeys(u, f, sub)
+			for k := range sub.keys {
+				traceKey(f, k)
+				res.keys[k] = true
+			}
+			res.all = res.all || sub.all
 			if !u.ModInferred {
 				continue
 			}
 		}
 		if g.isPureLib(f) && f != fn {
+			continue
+		}
+		if f.Pkg != nil && !g.inRepo(f.Pkg.Pkg) && !(f == fn && root != nil && f.Pkg.Pkg == root) {
+			// library code: it changes verified state only by calling methods of in-repo types (parametricity
+			// assumption, listed in evidence); which methods is read off its signature
+			push(f, g.libCallbackTargets(f))
 			continue
 		}
 		// closures passed to pure library functions may be run by them
@@ -908,9 +955,9 @@ func (g *Global) fnWrites(fn *ssa.Function, root *types.Package) (map[string]boo
 					if callee := ci.Common().StaticCallee(); callee != nil && g.isPureLib(callee) {
 						for _, a := range ci.Common().Args {
 							if mc, ok := a.(*ssa.MakeClosure); ok {
-								stack = append(stack, mc.Fn.(*ssa.Function))
+								push(f, []*ssa.Function{mc.Fn.(*ssa.Function)})
 							} else if fa, ok := a.(*ssa.Function); ok {
-								stack = append(stack, fa)
+								push(f, []*ssa.Function{fa})
 							}
 						}
 					}
@@ -925,10 +972,11 @@ func (g *Global) fnWrites(fn *ssa.Function, root *types.Package) (map[string]boo
 		}
 		dw := g.directWritesLocked(f)
 		for k := range dw.keys {
+			traceKey(f, k)
 			res.keys[k] = true
 		}
 		res.all = res.all || dw.all
-		stack = append(stack, g.targetsLocked(cg, f)...)
+		push(f, g.targetsLocked(cg, f, res))
 	}
 	g.writes[mk] = res
 	return res.keys, res.all
@@ -938,18 +986,43 @@ func (g *Global) mayCallBack(f *ssa.Function) bool { return true }
 
 // targetsLocked lists the functions whose effects a call from f may have, per call site, using the
 // argument-type specialisation for library calls and the VTA call graph otherwise.
-func (g *Global) targetsLocked(cg *callgraph.Graph, f *ssa.Function) []*ssa.Function {
+func (g *Global) targetsLocked(cg *callgraph.Graph, f *ssa.Function, res *writeSet) []*ssa.Function {
 	var out []*ssa.Function
-	special := map[ssa.CallInstruction]bool{}
 	for _, b := range f.Blocks {
 		for _, in := range b.Instrs {
 			ci, ok := in.(ssa.CallInstruction)
 			if !ok {
 				continue
 			}
-			if callee := ci.Common().StaticCallee(); callee != nil {
-				if g.specialiseLibCall(callee, ci.Common(), func(m *ssa.Function) { out = append(out, m) }) {
-					special[ci] = true
+			// function values handed to any callee may be run by it
+			for _, a := range ci.Common().Args {
+				if mc, ok := a.(*ssa.MakeClosure); ok {
+					out = append(out, mc.Fn.(*ssa.Function))
+				} else if fa, ok := a.(*ssa.Function); ok {
+					out = append(out, fa)
+				}
+			}
+		}
+	}
+	refined := map[ssa.CallInstruction]bool{}
+	for _, b := range f.Blocks {
+		for _, in := range b.Instrs {
+			if ci, ok := in.(ssa.CallInstruction); ok {
+				if ci.Common().IsInvoke() {
+					// an interface method with a (trusted) contract: its modifies clause is its effect
+					if u := g.C.Units[ifaceKey(ci.Common().Value.Type(), ci.Common().Method.Name())]; u != nil {
+						refined[ci] = true
+						if res != nil {
+							g.unitModKeys(u, nil, res)
+						}
+						continue
+					}
+				}
+				if callee := ci.Common().StaticCallee(); callee != nil && g.unitFor(callee) == nil && !g.isPureLib(callee) {
+					if ts, ok := g.libSiteTargets(callee, ci.Common()); ok {
+						refined[ci] = true
+						out = append(out, ts...)
+					}
 				}
 			}
 		}
@@ -959,7 +1032,7 @@ func (g *Global) targetsLocked(cg *callgraph.Graph, f *ssa.Function) []*ssa.Func
 			if e.Callee == nil || e.Callee.Func == nil {
 				continue
 			}
-			if e.Site != nil && special[e.Site] {
+			if e.Site != nil && refined[e.Site] {
 				continue
 			}
 			out = append(out, e.Callee.Func)
@@ -967,6 +1040,376 @@ func (g *Global) targetsLocked(cg *callgraph.Graph, f *ssa.Function) []*ssa.Func
 	}
 	return out
 }
+
+var leafLibTypes = map[string]bool{"strings.Builder": true, "bytes.Buffer": true, "os.File": true, "strings.Reader": true, "bytes.Reader": true,
+	"io.discard": true, "crypto/md5.digest": true, "crypto/sha1.digest": true, "sync.Pool": true, "sync.Mutex": true, "sync.RWMutex": true, "regexp.Regexp": true}
+
+// libSiteTargets refines libCallbackTargets with what the call site shows: an interface argument built from a
+// known concrete type contributes only that type's methods (nothing for library types that wrap no other value),
+// an interface argument of unknown dynamic type contributes the in-repo types implementing that interface.
+// ok=false when the site cannot be refined (then the signature-level rule applies).
+func (g *Global) libSiteTargets(callee *ssa.Function, c *ssa.CallCommon) (out []*ssa.Function, ok bool) {
+	if callee.Pkg == nil || g.inRepo(callee.Pkg.Pkg) || len(callee.Blocks) == 0 {
+		return nil, false
+	}
+	addType := func(t types.Type, iface *types.Interface) {
+		nt := namedOf(t)
+		if nt == nil || nt.Obj().Pkg() == nil {
+			return
+		}
+		if !g.inRepo(nt.Obj().Pkg()) {
+			return
+		}
+		ms := g.prog.MethodSets.MethodSet(t)
+		for i := 0; i < ms.Len(); i++ {
+			name := ms.At(i).Obj().Name()
+			in := optionalIfaceMethods[name]
+			for j := 0; iface != nil && j < iface.NumMethods(); j++ {
+				if iface.Method(j).Name() == name {
+					in = true
+				}
+			}
+			if in {
+				if m := g.prog.MethodValue(ms.At(i)); m != nil {
+					out = append(out, m)
+				}
+			}
+		}
+	}
+	for _, a := range c.Args {
+		switch u := a.Type().Underlying().(type) {
+		case *types.Basic:
+		case *types.Slice:
+			if _, isB := u.Elem().Underlying().(*types.Basic); !isB {
+				return nil, false
+			}
+		case *types.Signature:
+			if mc, isC := a.(*ssa.MakeClosure); isC {
+				out = append(out, mc.Fn.(*ssa.Function))
+			} else if fa, isF := a.(*ssa.Function); isF {
+				out = append(out, fa)
+			} else if cst, isK := a.(*ssa.Const); !isK || cst.Value != nil {
+				return nil, false
+			}
+		case *types.Pointer:
+			nt := namedOf(a.Type())
+			if nt == nil || nt.Obj().Pkg() == nil {
+				return nil, false
+			}
+			name := nt.Obj().Pkg().Path() + "." + nt.Obj().Name()
+			if g.inRepo(nt.Obj().Pkg()) {
+				addType(a.Type(), nil)
+				return nil, false // an in-repo object handed to a library: be conservative
+			}
+			if !leafLibTypes[name] {
+				return nil, false
+			}
+		case *types.Interface:
+			v := a
+			for {
+				if ci, isCI := v.(*ssa.ChangeInterface); isCI {
+					v = ci.X
+					continue
+				}
+				break
+			}
+			var ct types.Type
+			if mi, isMI := v.(*ssa.MakeInterface); isMI {
+				ct = mi.X.Type()
+			} else if ld, isLoad := v.(*ssa.UnOp); isLoad && ld.Op == token.MUL {
+				if gl, isG := ld.X.(*ssa.Global); isG {
+					ct = g.ifaceGlobals[gl]
+				}
+			}
+			if cst, isK := v.(*ssa.Const); isK && cst.Value == nil {
+				continue
+			}
+			if ct != nil {
+				nt := namedOf(ct)
+				if nt != nil && nt.Obj().Pkg() != nil && !g.inRepo(nt.Obj().Pkg()) {
+					if leafLibTypes[nt.Obj().Pkg().Path()+"."+nt.Obj().Name()] {
+						continue
+					}
+					// a library wrapper of unknown content: like an unknown dynamic type of the static interface
+				} else {
+					addType(ct, u)
+					continue
+				}
+			}
+			if u.NumMethods() == 0 {
+				return nil, false
+			}
+			// a value produced by a library call can only be (or wrap) an in-repo value that reaches that package
+			var restrict map[*types.Named]bool
+			src := v
+			if ex, isEx := src.(*ssa.Extract); isEx {
+				src = ex.Tuple
+			}
+			if call, isCall := src.(*ssa.Call); isCall {
+				if lc := call.Common().StaticCallee(); lc != nil && lc.Pkg != nil && !g.inRepo(lc.Pkg.Pkg) {
+					restrict = g.typesReaching(lc.Pkg.Pkg)
+				}
+			}
+			for _, rt := range g.runtimeTypes() {
+				if types.Implements(rt, u) {
+					if restrict != nil {
+						if nt := namedOf(rt); nt == nil || !restrict[nt] {
+							continue
+						}
+					}
+					addType(rt, u)
+				}
+			}
+		default:
+			return nil, false
+		}
+	}
+	return out, true
+}
+
+// typesReaching: the in-repo named types whose values can be held by objects of library package q: a value gets
+// into library code only as an argument of a call from in-repo code to a library function of some package p, and
+// from there only into packages that p imports (transitively).
+func (g *Global) typesReaching(q *types.Package) map[*types.Named]bool {
+	if g.flowInto == nil {
+		g.flowInto = map[*types.Package]map[*types.Named]bool{}
+		add := func(p *types.Package, t types.Type) {
+			nt := namedOf(t)
+			if nt == nil || nt.Obj().Pkg() == nil || !g.inRepo(nt.Obj().Pkg()) {
+				return
+			}
+			if g.flowInto[p] == nil {
+				g.flowInto[p] = map[*types.Named]bool{}
+			}
+			g.flowInto[p][nt] = true
+		}
+		for fn := range g.allFns {
+			if fn.Pkg == nil || !g.inRepo(fn.Pkg.Pkg) {
+				continue
+			}
+			for _, b := range fn.Blocks {
+				for _, in := range b.Instrs {
+					ci, ok := in.(ssa.CallInstruction)
+					if !ok {
+						continue
+					}
+					callee := ci.Common().StaticCallee()
+					var cp *types.Package
+					if callee != nil && callee.Pkg != nil {
+						cp = callee.Pkg.Pkg
+					} else if ci.Common().IsInvoke() {
+						if nt := namedOf(ci.Common().Value.Type()); nt != nil {
+							cp = nt.Obj().Pkg()
+						}
+					}
+					if cp == nil || g.inRepo(cp) {
+						continue
+					}
+					for _, a := range ci.Common().Args {
+						switch u := a.Type().Underlying().(type) {
+						case *types.Interface:
+							v := a
+							if c2, ok := v.(*ssa.ChangeInterface); ok {
+								v = c2.X
+							}
+							if mi, ok := v.(*ssa.MakeInterface); ok {
+								add(cp, mi.X.Type())
+							} else if u.NumMethods() > 0 {
+								for _, rt := range g.runtimeTypes() {
+									if types.Implements(rt, u) {
+										add(cp, rt)
+									}
+								}
+							} else {
+								// unknown value of type any: only types that in-repo code ever boxes into an empty interface
+								for _, rt := range g.anyBoxedTypes() {
+									add(cp, rt)
+								}
+							}
+						case *types.Pointer, *types.Struct:
+							add(cp, a.Type())
+						case *types.Signature:
+							// closures: their effects are added at the call site
+						}
+					}
+				}
+			}
+		}
+	}
+	if r, ok := g.reachMemo[q]; ok {
+		return r
+	}
+	res := map[*types.Named]bool{}
+	// q holds values handed to any package p with q in imports*(p)  (including p == q)
+	var importsQ func(p *types.Package, seen map[*types.Package]bool) bool
+	importsQ = func(p *types.Package, seen map[*types.Package]bool) bool {
+		if p == q {
+			return true
+		}
+		if seen[p] {
+			return false
+		}
+		seen[p] = true
+		for _, i := range p.Imports() {
+			if importsQ(i, seen) {
+				return true
+			}
+		}
+		return false
+	}
+	for p, ts := range g.flowInto {
+		if importsQ(p, map[*types.Package]bool{}) {
+			for t := range ts {
+				if os.Getenv("GOVC_DEBUG_REACH") != "" && strings.Contains(t.String(), os.Getenv("GOVC_DEBUG_REACH")) {
+					fmt.Fprintf(os.Stderr, "reach: %s gets into %s through calls into %s\n", t, q.Path(), p.Path())
+				}
+				res[t] = true
+			}
+		}
+	}
+	if g.reachMemo == nil {
+		g.reachMemo = map[*types.Package]map[*types.Named]bool{}
+	}
+	g.reachMemo[q] = res
+	return res
+}
+
+func (g *Global) anyBoxedTypes() []types.Type {
+	if g.anyBoxed != nil {
+		return g.anyBoxed
+	}
+	seen := map[string]bool{}
+	g.anyBoxed = []types.Type{}
+	for fn := range g.allFns {
+		if fn.Pkg == nil || !g.inRepo(fn.Pkg.Pkg) {
+			continue
+		}
+		for _, b := range fn.Blocks {
+			for _, in := range b.Instrs {
+				if mi, ok := in.(*ssa.MakeInterface); ok {
+					if it, ok := mi.Type().Underlying().(*types.Interface); ok && it.NumMethods() == 0 {
+						if nt := namedOf(mi.X.Type()); nt != nil && nt.Obj().Pkg() != nil && g.inRepo(nt.Obj().Pkg()) && !seen[mi.X.Type().String()] {
+							seen[mi.X.Type().String()] = true
+							g.anyBoxed = append(g.anyBoxed, mi.X.Type())
+						}
+					}
+				}
+			}
+		}
+	}
+	return g.anyBoxed
+}
+
+var defaultCallbackNames = map[string]bool{"Read": true, "Write": true, "Close": true, "WriteTo": true, "ReadFrom": true, "Flush": true,
+	"String": true, "Error": true, "Len": true, "ReadByte": true, "WriteString": true, "WriteByte": true, "Unwrap": true, "Less": true, "Swap": true,
+	"ServeHTTP": true, "WriteHeader": true, "Header": true, "MarshalJSON": true, "UnmarshalJSON": true, "Seek": true, "ReadAt": true}
+
+// libCallbackTargets: the in-repo methods a library function may call back, judged from its signature: the methods
+// of the interface types among its parameters, plus a default set of common method names when it receives an
+// interface or an opaque library object (which may wrap an in-repo value).
+func (g *Global) libCallbackTargets(f *ssa.Function) []*ssa.Function {
+	var ifaces []*types.Interface
+	anyVal := false
+	seenT := map[types.Type]bool{}
+	var visit func(t types.Type, depth int)
+	visit = func(t types.Type, depth int) {
+		if depth > 4 || seenT[t] {
+			return
+		}
+		seenT[t] = true
+		switch u := t.Underlying().(type) {
+		case *types.Interface:
+			if u.NumMethods() == 0 {
+				anyVal = true
+				return
+			}
+			ifaces = append(ifaces, u)
+		case *types.Pointer:
+			visit(u.Elem(), depth+1)
+		case *types.Struct:
+			// an opaque library object may wrap in-repo values in its interface-typed fields
+			for i := 0; i < u.NumFields(); i++ {
+				visit(u.Field(i).Type(), depth+1)
+			}
+		case *types.Slice:
+			visit(u.Elem(), depth+1)
+		case *types.Array:
+			visit(u.Elem(), depth+1)
+		case *types.Map:
+			visit(u.Key(), depth+1)
+			visit(u.Elem(), depth+1)
+		}
+	}
+	for _, p := range f.Params {
+		visit(p.Type(), 0)
+	}
+	for _, fv := range f.FreeVars {
+		visit(fv.Type(), 0)
+	}
+	if len(ifaces) == 0 && !anyVal {
+		return nil
+	}
+	var sig []string
+	for _, i := range ifaces {
+		sig = append(sig, i.String())
+	}
+	sort.Strings(sig)
+	key := strings.Join(sig, ";") + fmt.Sprint(anyVal) + "@" + f.Pkg.Pkg.Path()
+	if g.cbMemo == nil {
+		g.cbMemo = map[string][]*ssa.Function{}
+	}
+	if r, ok := g.cbMemo[key]; ok {
+		return r
+	}
+	reach := g.typesReaching(f.Pkg.Pkg)
+	hooks := map[string]bool{"String": true, "Error": true, "Format": true, "GoString": true, "MarshalJSON": true, "MarshalText": true, "UnmarshalJSON": true, "UnmarshalText": true}
+	var out []*ssa.Function
+	seenM := map[*ssa.Function]bool{}
+	for _, rt := range g.runtimeTypes() {
+		nt := namedOf(rt)
+		if nt == nil || nt.Obj().Pkg() == nil || !g.inRepo(nt.Obj().Pkg()) || !reach[nt] {
+			continue // not an in-repo type, or no value of it is ever handed to that library package
+		}
+		want := map[string]bool{}
+		for _, it := range ifaces {
+			if !types.Implements(rt, it) {
+				continue
+			}
+			ioLike := false
+			for j := 0; j < it.NumMethods(); j++ {
+				want[it.Method(j).Name()] = true
+				if n := it.Method(j).Name(); n == "Read" || n == "Write" {
+					ioLike = true
+				}
+			}
+			if ioLike {
+				for n := range optionalIfaceMethods {
+					want[n] = true
+				}
+			}
+		}
+		if anyVal {
+			for n := range hooks {
+				want[n] = true
+			}
+		}
+		if len(want) == 0 {
+			continue
+		}
+		ms := g.prog.MethodSets.MethodSet(rt)
+		for i := 0; i < ms.Len(); i++ {
+			if want[ms.At(i).Obj().Name()] {
+				if m := g.prog.MethodValue(ms.At(i)); m != nil && !seenM[m] {
+					seenM[m] = true
+					out = append(out, m)
+				}
+			}
+		}
+	}
+	g.cbMemo[key] = out
+	return out
+}
+
 
 func (g *Global) unitForLocked(fn *ssa.Function) *Unit {
 	if fn.Pkg == nil {
@@ -1224,10 +1667,22 @@ func (g *Global) callWrites(fn *ssa.Function, c *ssa.CallCommon) (map[string]boo
 		all = all || a
 	}
 	if callee := c.StaticCallee(); callee != nil {
-		if g.specialiseLibCall(callee, c, add) {
-			return res, all
+		if g.unitFor(callee) == nil && !g.isPureLib(callee) {
+			if ts, ok := g.libSiteTargets(callee, c); ok {
+				for _, t := range ts {
+					add(t)
+				}
+				return res, all
+			}
 		}
 		add(callee)
+		for _, a := range c.Args {
+			if mc, ok := a.(*ssa.MakeClosure); ok {
+				add(mc.Fn.(*ssa.Function))
+			} else if fa, ok := a.(*ssa.Function); ok {
+				add(fa)
+			}
+		}
 		return res, all
 	}
 	if mc, ok := c.Value.(*ssa.MakeClosure); ok {
@@ -1290,12 +1745,51 @@ func (g *Global) specialiseLibCall(callee *ssa.Function, c *ssa.CallCommon, add 
 				}
 				break
 			}
+			if ld, isLoad := v.(*ssa.UnOp); isLoad && ld.Op == token.MUL {
+				if gl, isG := ld.X.(*ssa.Global); isG {
+					if ct := g.ifaceGlobals[gl]; ct != nil {
+						concrete = append(concrete, conc{ct, u})
+						continue
+					}
+				}
+			}
 			mi, ok := v.(*ssa.MakeInterface)
 			if !ok {
 				if cst, isC := v.(*ssa.Const); isC && cst.Value == nil {
 					continue // nil interface
 				}
-				return false
+				// unknown dynamic type: any runtime type implementing the parameter's static interface; the library
+				// may call that interface's methods and the usual optional ones (WriteTo, ReadFrom, Close, ...)
+				if u.NumMethods() == 0 {
+					return false
+				}
+				for _, rt := range g.runtimeTypes() {
+					if !types.Implements(rt, u) {
+						continue
+					}
+					ms := g.prog.MethodSets.MethodSet(rt)
+					for i := 0; i < ms.Len(); i++ {
+						name := ms.At(i).Obj().Name()
+						inIface := false
+						for j := 0; j < u.NumMethods(); j++ {
+							if u.Method(j).Name() == name {
+								inIface = true
+							}
+						}
+						// optional fast-path methods (WriteTo, ReadFrom, ...) of *library* types only forward to the peer
+						// argument (whose own methods are accounted for) and to what the type's interface methods do
+						inRepoType := false
+						if nt := namedOf(rt); nt != nil && nt.Obj().Pkg() != nil && g.inRepo(nt.Obj().Pkg()) {
+							inRepoType = true
+						}
+						if inIface || (optionalIfaceMethods[name] && inRepoType) {
+							if m := g.prog.MethodValue(ms.At(i)); m != nil {
+								add(m)
+							}
+						}
+					}
+				}
+				continue
 			}
 			concrete = append(concrete, conc{mi.X.Type(), u})
 		default:
@@ -1315,6 +1809,11 @@ func (g *Global) specialiseLibCall(callee *ssa.Function, c *ssa.CallCommon, add 
 			if !inIface && !optionalIfaceMethods[name] {
 				continue
 			}
+			if !inIface {
+				if nt := namedOf(ct.t); nt == nil || nt.Obj().Pkg() == nil || !g.inRepo(nt.Obj().Pkg()) {
+					continue // optional fast paths of library types: see above
+				}
+			}
 			if m := g.prog.MethodValue(ms.At(i)); m != nil {
 				add(m)
 			}
@@ -1326,6 +1825,21 @@ func (g *Global) specialiseLibCall(callee *ssa.Function, c *ssa.CallCommon, add 
 var optionalIfaceMethods = map[string]bool{"WriteTo": true, "ReadFrom": true, "Close": true, "Flush": true, "String": true,
 	"Error": true, "Len": true, "ReadByte": true, "WriteString": true, "WriteByte": true, "UnreadByte": true, "Unwrap": true}
 
+
+func namedOf(t types.Type) *types.Named {
+	if p, ok := t.(*types.Pointer); ok {
+		t = p.Elem()
+	}
+	n, _ := types.Unalias(t).(*types.Named)
+	return n
+}
+
+func (g *Global) runtimeTypes() []types.Type {
+	if g.rtTypes == nil {
+		g.rtTypes = g.prog.RuntimeTypes()
+	}
+	return g.rtTypes
+}
 
 func (g *Global) noteUse(vc *FnVC, u *Unit, calleeKey string) {
 	if vc.unit == nil {
